@@ -71,8 +71,8 @@ def _cbin_cases(N, thorough):
 def drivers(tier):
     th = tier == 'thorough'
     return [
-        dict(kind='enum', name='cb', exhaustive=True, bound='n,chunk<=%d' % (160 if th else 64),
-             cases=lambda: _cb_cases(160 if th else 64)),
+        dict(kind='enum', name='cb', exhaustive=True, bound='n,chunk<=%d' % (224 if th else 96),
+             cases=lambda: _cb_cases(224 if th else 96)),
         dict(kind='enum', name='ex', exhaustive=True, bound='n<=40,n_excerpts<=8,size<=12',
              cases=lambda: _ex_cases(40, 8, 12)),
         dict(kind='enum', name='gcb', exhaustive=True,
